@@ -34,7 +34,7 @@ def case_strategy(draw, tier):
         opts["mode"] = "hydraulics"
     else:
         from ..genheat import heat_net, heat_options
-        rec = draw(heat_net(max_n=5 if tier == "quick" else 10))
+        rec = draw(heat_net(max_n=5 if tier == "quick" else 10, allow_makeup=True))
         opts = draw(heat_options())
     return {"recipe": rec, "options": opts}
 
@@ -179,6 +179,11 @@ def evaluate(case):
     if any((not e.get("in_service", True)) or (e.get("opened") is False) for e in rec["elements"]) or \
             any(not j.get("in_service", True) for j in rec["junction"]):
         labels.add("oos_pattern")
+    if any(t.startswith("circ_pump") for t in tabs) and "ext_grid" in tabs:
+        labels.add("open_loop:circ_pump+ext_grid")
+        cj = {e["flow_junction"] for e in rec["elements"] if e["table"].startswith("circ_pump")}
+        if any(e["table"] == "ext_grid" and e["junction"] in cj for e in rec["elements"]):
+            labels.add("ext_grid_on_pump_flow_junction")
     if rec.get("row_order"):
         labels.add("row_permuted")
     if max(j["index"] for j in rec["junction"]) >= 99990:
